@@ -1,8 +1,29 @@
-import NutilsVerif.Model.C15
+import NutilsVerif.Proofs.C15Block
+import NutilsVerif.Proofs.C15Coo
 /-!
 # C15 — property theorems (statements only about the executable model in `Model/C15.lean`)
+
+"A matrix assembled from CSR, COO or block data represents exactly that data … Input that does not define a
+matrix unambiguously is rejected rather than silently altered."  All theorems are unbounded: for every triple,
+every index vector, every rectangular dense array, every block structure.
 -/
 namespace NutilsVerif.C15
+
+/-! ## 1. rejection: the code's validation is exactly the specification -/
+
+/-- **Clause "input that does not define a matrix unambiguously is rejected".**  The vectorised validation of
+`assemble_csr` (row pointer test, range test, flag vector with neighbour comparisons and the positions listed in
+`rowptr` forced true) accepts exactly the triples that the specification `validB` calls unambiguous: row pointers
+partition `0..nnz`, every column index is in `[0,ncols)`, column indices strictly increase inside each row slice. -/
+theorem accept_iff_valid (m : CSR) : codeAccept m = validB m := accept_iff_valid' m
+
+/-- the rejection classes: whatever `validate` answers, it answers `ok` iff the triple is valid -/
+theorem validate_ok_iff (m : CSR) : validate m = .ok () ↔ validB m = true := by
+  rw [← accept_iff_valid]
+  unfold codeAccept
+  cases h : validate m <;> simp [Except.isOk, Except.toBool]
+
+/-! ## 2. faithful: nothing is dropped for accepted input -/
 
 theorem filter_le_one {α β : Type} [DecidableEq β] (f : α → β) (p : α → Bool) (c : β) (l : List α)
     (hn : (l.map f).Nodup) (hp : ∀ x, p x = true → f x = c) : (l.filter p).length ≤ 1 := by
@@ -37,7 +58,229 @@ theorem assign_eq_sum (m : CSR) (h : ((entries m).map fun e => (e.1, e.2.1)).Nod
   | [e], _ => simp
   | _ :: _ :: _, h => simp at h
 
--- non-vacuity: a 2x3 matrix with an empty row satisfies the hypothesis
+/-- A valid triple lists every (row, column) position at most once. -/
+theorem valid_positions_nodup (m : CSR) (h : validB m = true) :
+    ((entries m).map fun e => (e.1, e.2.1)).Nodup := by
+  obtain ⟨L, hm, hL⟩ := valid_rows m h
+  rw [hm, entries_ofRows]
+  exact positions_nodup_from L 0 (fun r hr => (hL r hr).1)
+
+/-- **Clause "represents exactly that data" for the numpy backend.**  For valid input the scatter equals the
+additive dense meaning. -/
+theorem valid_assign_eq_sum (m : CSR) (h : validB m = true) : denseAssign m = denseSum m :=
+  assign_eq_sum m (valid_positions_nodup m h)
+
+/-- `assemble_csr` as a whole: valid input is assembled to exactly its dense meaning … -/
+theorem assemble_valid (m : CSR) (h : validB m = true) : assemble m = .ok (denseSum m) := by
+  unfold assemble
+  rw [(validate_ok_iff m).2 h]
+  simp [bind, Except.bind, pure, Except.pure, valid_assign_eq_sum m h]
+
+/-- … and everything else is rejected. -/
+theorem assemble_invalid (m : CSR) (h : validB m = false) : ∃ e, assemble m = .error e := by
+  unfold assemble
+  cases hv : validate m with
+  | error e => exact ⟨e, by simp [bind, Except.bind]⟩
+  | ok u =>
+    cases u
+    rw [(validate_ok_iff m).1 hv] at h
+    exact absurd h (by simp)
+
+/-! ## 3. why ambiguous input must be rejected -/
+
+/-- A repeated column index inside a row (the triple that the unrepaired code accepted): the scatter keeps only the
+last value, so the assembled matrix differs from the data.  Such input is invalid, hence rejected (Theorem 1). -/
+theorem invalid_ambiguous_witness :
+    let m : CSR := { values := [1, 2, 3], rowptr := [0, 2, 3], colidx := [1, 1, 0], ncols := 2 }
+    validB m = false ∧ codeAccept m = false ∧ denseAssign m ≠ denseSum m := by decide
+
+/-- A negative column index would wrap to the last column in NumPy; it is invalid, hence rejected. -/
+theorem invalid_negative_witness :
+    codeAccept { values := [1, 2], rowptr := [0, 2], colidx := [-1, 0], ncols := 2 } = false := by decide
+
+/-! ## 4. compress_indices / assemble_coo -/
+
+/-- **`numeric.compress_indices`.**  For every index vector and length: the function succeeds iff the indices are
+sorted and inside `[0, length)`, and then returns `indices.searchsorted(arange(length+1))`; out-of-bounds end points
+give the `bounds` error, all other failures the `not monotonic` error. -/
+theorem compress_indices_spec (idx : List Int) (n : Nat) : compressIndices idx n = compressSpec idx n :=
+  compress_eq_spec idx n
+
+theorem compress_ok_iff (idx : List Int) (n : Nat) (c : List Int) :
+    compressIndices idx n = .ok c ↔ (monotone idx = true ∧ inRange idx n = true) ∧ c = searchsortedAll idx n := by
+  rw [compress_indices_spec]
+  unfold compressSpec
+  by_cases h : (monotone idx && inRange idx n) = true
+  · rw [if_pos h]
+    simp only [Bool.and_eq_true] at h
+    simp only [Except.ok.injEq, h, true_and]
+    exact eq_comm
+  · rw [if_neg h]
+    simp only [Bool.and_eq_true] at h
+    constructor
+    · intro hc
+      split at hc
+      · split at hc <;> cases hc
+      · cases hc
+    · rintro ⟨h', _⟩; exact absurd h' h
+
+/-- the compressed vector has one entry per row plus one -/
+theorem compress_length (idx : List Int) (n : Nat) (c : List Int) (h : compressIndices idx n = .ok c) :
+    c.length = n + 1 := by
+  rw [((compress_ok_iff idx n c).1 h).2]; simp [searchsortedAll]
+
+/-- **`assemble_coo`.**  Unambiguous COO data (rows sorted and in range, induced CSR triple valid) is assembled to
+its dense meaning; all other COO data is refused (ValueError from `compress_indices` or MatrixError). -/
+theorem coo_valid (vs ri : List Int) (nr : Nat) (ci : List Int) (nc : Nat) (h : cooValidB vs ri nr ci nc = true) :
+    assembleCOO vs ri nr ci nc =
+      .ok (denseSum { values := vs, rowptr := searchsortedAll ri nr, colidx := ci, ncols := nc }) := by
+  unfold cooValidB at h
+  simp only [Bool.and_eq_true] at h
+  unfold assembleCOO
+  rw [(compress_ok_iff ri nr _).2 ⟨⟨h.1.1, h.1.2⟩, rfl⟩]
+  simp only [assemble_valid _ h.2]
+
+theorem coo_invalid (vs ri : List Int) (nr : Nat) (ci : List Int) (nc : Nat) (h : cooValidB vs ri nr ci nc = false) :
+    ∀ d, assembleCOO vs ri nr ci nc ≠ .ok d := by
+  intro d hd
+  unfold assembleCOO at hd
+  cases hc : compressIndices ri nr with
+  | error e => rw [hc] at hd; cases hd
+  | ok rp =>
+    rw [hc] at hd
+    obtain ⟨⟨h1, h2⟩, rfl⟩ := (compress_ok_iff ri nr rp).1 hc
+    have hv : validB { values := vs, rowptr := searchsortedAll ri nr, colidx := ci, ncols := nc } = false := by
+      unfold cooValidB at h
+      simpa [h1, h2] using h
+    obtain ⟨e, he⟩ := assemble_invalid _ hv
+    simp only [he] at hd
+    cases hd
+
+/-! ## 5. export and pickling -/
+
+/-- **Clause "export to CSR … and pickling agree with the dense matrix".**  For every rectangular dense array the
+CSR export (`core.nonzero()` row-major, `rows.searchsorted(arange(nrows+1))`) is a valid triple whose dense meaning
+is the array itself. -/
+theorem export_roundtrip (d : Dense) (nc : Nat) (hrect : ∀ row ∈ d, row.length = nc) :
+    validB (exportCSR d nc) = true ∧ denseSum (exportCSR d nc) = d := by
+  rw [exportCSR_eq]
+  constructor
+  · rw [validB_ofRows]
+    intro r hr
+    obtain ⟨row, hrow, rfl⟩ := List.mem_map.1 hr
+    have := rowOK_nzRow row
+    rwa [hrect row hrow] at this
+  · rw [denseSum_ofRows, List.map_map]
+    have : ∀ row ∈ d, ((fun r => rowDense r nc) ∘ nzRow) row = id row := by
+      intro row hrow
+      simp only [Function.comp, id]
+      have := rowDense_nzRow row
+      rwa [hrect row hrow] at this
+    rw [List.map_congr_left this, List.map_id]
+
+/-- `Matrix.__reduce__` = `assemble_csr ∘ export('csr')`: unpickling reproduces the dense matrix exactly. -/
+theorem pickle_roundtrip (d : Dense) (nc : Nat) (hrect : ∀ row ∈ d, row.length = nc) :
+    assemble (exportCSR d nc) = .ok d := by
+  obtain ⟨hv, hd⟩ := export_roundtrip d nc hrect
+  rw [assemble_valid _ hv, hd]
+
+/-- the export never lists an explicit zero and lists each row's columns in strictly increasing order -/
+theorem export_contract (d : Dense) (nc : Nat) :
+    (∀ v ∈ (exportCSR d nc).values, v ≠ 0) ∧ (rowSlices (exportCSR d nc).rowptr (exportCSR d nc).colidx).all strictInc = true := by
+  rw [exportCSR_eq]
+  constructor
+  · intro v hv
+    simp only [ofRows, List.mem_flatten, List.mem_map] at hv
+    obtain ⟨_, ⟨_, ⟨row, _, rfl⟩, rfl⟩, hv⟩ := hv
+    simp only [nzRow, List.map_map, List.mem_map, List.mem_filter, Function.comp] at hv
+    obtain ⟨p, ⟨_, hp⟩, rfl⟩ := hv
+    simpa using hp
+  · have h3 : rowSlices (ofRows (d.map nzRow) nc).rowptr (ofRows (d.map nzRow) nc).colidx = (d.map nzRow).map (·.map (·.1)) := by
+      simp only [rowSlices, ofRows]; exact slices_ofRows_map _ _
+    rw [h3, List.all_map, List.all_map, List.all_eq_true]
+    intro row _
+    exact (rowOK_nzRow row).1
+
+/-- the COO export lists the same entries as the CSR export, and `assemble_coo` takes it back -/
+theorem export_coo_roundtrip (d : Dense) (nc : Nat) (hrect : ∀ row ∈ d, row.length = nc) :
+    assembleCOO ((exportCOO d).map (·.2.2)) ((exportCOO d).map fun e => (e.1 : Int)) d.length
+      ((exportCOO d).map (·.2.1)) nc = .ok d := by
+  have hrows := coo_rows_ok (d.map nzRow)
+  rw [← exportCOO_eq, List.length_map] at hrows
+  unfold assembleCOO
+  rw [(compress_ok_iff _ _ _).2 ⟨hrows, rfl⟩]
+  have := pickle_roundtrip d nc hrect
+  unfold exportCSR at this
+  simp only [this]
+
+/-! ## 6. block matrices -/
+
+/-- **Clause "assembled from … block data".**  For every well-formed block structure (every block a valid triple,
+equal row counts inside a block row, equal total widths; any number of block rows / columns; empty blocks, empty
+rows and zero-width blocks included) the merged triple is valid and its dense meaning is the block matrix of the
+blocks' dense meanings. -/
+theorem block_dense (blocks : List (List Block)) (h : blocksOK blocks = true) :
+    validB (blockMerge blocks) = true ∧ denseSum (blockMerge blocks) = blockDense blocks :=
+  block_dense' blocks h
+
+/-- hence `assemble_csr` of the merged triple is the block matrix -/
+theorem block_assemble (blocks : List (List Block)) (h : blocksOK blocks = true) :
+    assemble (blockMerge blocks) = .ok (blockDense blocks) := by
+  obtain ⟨hv, hd⟩ := block_dense blocks h
+  rw [assemble_valid _ hv, hd]
+
+/-
+`block_code_partial` (not proved in Lean): `blockMergeCode blocks = .ok (blockMerge blocks, any)` for well-formed
+blocks, i.e. that the single-block fast path and the skipping of empty blocks of the *code* model produce the same
+triple as the specification-level merge.  This equality is checked by the correspondence on every generated block
+structure instead (driver request `block`, field `merge-agrees`), and the code model is compared with the triple
+that the real `assemble_block_csr` hands to `assemble_csr`.
+-/
+
+/-! ## 7. diagonal and row support computed from the sparse exports -/
+
+/-- **`Matrix.diagonal`.**  For every valid triple, the CSR-level algorithm (per row: `searchsorted` of the row
+number in the row's column slice, take the value if the column matches, else 0) returns the diagonal of the dense
+meaning (also for non-square shapes, where the code raises before reaching the algorithm). -/
+theorem diagonal_spec (m : CSR) (h : validB m = true) : csrDiagonal m = dDiag (denseSum m) := by
+  obtain ⟨L, hm, hL⟩ := valid_rows m h
+  rw [hm, csrDiagonal_ofRows, denseSum_ofRows, dDiag_rows L _ hL]
+
+/-- the numpy backend's path: dense array → `export('csr')` → `Matrix.diagonal` = dense diagonal -/
+theorem diagonal_export (d : Dense) (nc : Nat) (hrect : ∀ row ∈ d, row.length = nc) :
+    csrDiagonal (exportCSR d nc) = dDiag d := by
+  obtain ⟨hv, hd⟩ := export_roundtrip d nc hrect
+  rw [diagonal_spec _ hv, hd]
+
+/-- **`Matrix.rowsupp`.**  For every valid triple and tolerance `tol ≥ 0`, marking the rows of the stored entries with
+`|value| > tol` gives exactly the rows of the dense meaning that contain an entry with `|a_ij| > tol`. -/
+theorem rowsupp_spec (m : CSR) (tol : Nat) (h : validB m = true) :
+    cooRowsupp (entries m) (nrows m) tol = dRowsupp (denseSum m) tol := by
+  obtain ⟨L, hm, hL⟩ := valid_rows m h
+  rw [hm, entries_ofRows, nrows_ofRows, cooRowsupp_rows, denseSum_ofRows, dRowsupp_rows L _ tol hL]
+
+/-- the base class path: dense array → `export('coo')` → `rowsupp` = rows with a non-small entry -/
+theorem rowsupp_export (d : Dense) (nc tol : Nat) (hrect : ∀ row ∈ d, row.length = nc) :
+    cooRowsupp (exportCOO d) d.length tol = dRowsupp d tol := by
+  obtain ⟨hv, hd⟩ := export_roundtrip d nc hrect
+  have := rowsupp_spec (exportCSR d nc) tol hv
+  rw [hd, ← exportCOO_entries] at this
+  rw [← this, exportCSR_eq, nrows_ofRows, List.length_map]
+
+/-! ## non-vacuity -/
+
+-- a 2x3 matrix with an empty row satisfies the hypotheses
+example : validB { values := [5, 7], rowptr := [0, 2, 2], colidx := [0, 2], ncols := 3 } = true := by decide
 example : (((entries { values := [5, 7], rowptr := [0, 2, 2], colidx := [0, 2], ncols := 3 }).map fun e => (e.1, e.2.1)).Nodup) := by decide
+-- 0xN and Nx0 shapes are valid
+example : validB { values := [], rowptr := [0], colidx := [], ncols := 3 } = true := by decide
+example : validB { values := [], rowptr := [0, 0, 0], colidx := [], ncols := 0 } = true := by decide
+-- COO data with an empty row in the middle
+example : cooValidB [1, 2, 3] [0, 0, 2] 3 [0, 1, 1] 2 = true := by decide
+-- a 2x2 block structure with an empty block, a zero-width block column and a single-block row is well-formed
+example : blocksOK [[{ values := [1], rowptr := [0, 1], colidx := [0], ncols := 1 }, { values := [], rowptr := [0, 0], colidx := [], ncols := 2 }],
+                    [{ values := [], rowptr := [0, 0, 0], colidx := [], ncols := 0 }, { values := [2, 3], rowptr := [0, 1, 2], colidx := [2, 0], ncols := 3 }]] = true := by decide
+-- a rectangular dense array with a zero row
+example : ∀ row ∈ ([[0, 2, 0], [0, 0, 0]] : Dense), row.length = 3 := by decide
 
 end NutilsVerif.C15
